@@ -322,6 +322,7 @@ package httpgrpc
 //@   ensures[C02,C08] success_writes_the_response_once: called("grpc.MethodDesc.Handler") && lastresult("grpc.MethodDesc.Handler", 1) == nil ==> !called("var:errHandler") && ((lastresult("encoding.Codec.Marshal", 1) != nil ==> calls(writeError) == 1 && lastarg(writeError, 1) == 500 && !called("http.ResponseWriter.Write")) && (lastresult("encoding.Codec.Marshal", 1) == nil ==> calls("http.ResponseWriter.Write") == 1 && !called(writeError) && lastarg("http.ResponseWriter.Write", 1) == lastresult("encoding.Codec.Marshal", 0)))
 //@   assert_call[C02,C14] var:errHandler : with_request_context_and_nonzero_code: arg0 == req_ctx(r) && arg2 == w && status_code(arg1) != 0
 //@   assert_call[C04,C02] var:errHandler : a_handlers_context_error_has_the_matching_code: (lastresult("grpc.MethodDesc.Handler", 1) == context.DeadlineExceeded ==> status_code(arg1) == 4) && (lastresult("grpc.MethodDesc.Handler", 1) == context.Canceled ==> status_code(arg1) == 1)
+//@   assert_call[C02] (http.Header).Set : the_status_message_survives_the_header: arg1 == "X-GRPC-Status" ==> header_value_safe(statProto.Message)
 //@   assert_call[C04,C02] (http.Header).Set : status_header_of_a_handlers_context_error_has_the_matching_code: arg1 == "X-GRPC-Status" ==> (lastresult("grpc.MethodDesc.Handler", 1) == context.DeadlineExceeded ==> statProto.Code == 4) && (lastresult("grpc.MethodDesc.Handler", 1) == context.Canceled ==> statProto.Code == 1)
 //@   assert_call[C02] encoding.Codec.Marshal : same_codec_as_the_request: arg0 == lastresult(getUnaryCodec)
 //@   ensures[C11] request_body_drained_and_closed: calls(drainAndClose) == 1
@@ -362,8 +363,10 @@ package httpgrpc
 //@   assert_call[C11,C02] writeProtoMessage : is_the_final_frame_of_this_reply: arg0 == w && arg1 == lastresult(getStreamingCodec) && arg3 && typeis(arg2, "*HttpTrailer") && unbox(arg2, "*HttpTrailer") == &tr
 //@   assert_call[C02] writeProtoMessage : success_has_code_zero: err == nil ==> tr.Code == 0
 //@   assert_call[C02] writeProtoMessage : failure_has_nonzero_code: err != nil ==> tr.Code != 0
-//@   assert_call[C02] writeProtoMessage : failure_carries_the_handlers_status: err != nil && is_status_err(err) && 0 < err_status_code(err) && err_status_code(err) <= 2147483647 ==> tr.Code == err_status_code(err) && tr.Message == err_status_msg(err) && tr.Details == err_status_details(err)
+//@   assert_call[C02] writeProtoMessage : failure_carries_the_handlers_status: err != nil && is_status_err(err) && 0 < err_status_code(err) && err_status_code(err) <= 2147483647 ==> tr.Code == err_status_code(err) && (valid_utf8(err_status_msg(err)) ==> tr.Message == err_status_msg(err)) && tr.Details == err_status_details(err)
+//@   assert_call[C02] writeProtoMessage : the_status_message_can_be_carried_by_the_frame: valid_utf8(tr.Message)
 //@   assert_call[C04,C02] writeProtoMessage : a_handlers_context_error_has_the_matching_code: (err == context.DeadlineExceeded ==> tr.Code == 4) && (err == context.Canceled ==> tr.Code == 1)
+//@   assert_call[C03] asTrailerProto : trailer_values_can_be_carried_by_the_frame: md_values_valid_utf8(arg0)
 //@   assert_call[C03] writeProtoMessage : trailer_metadata_is_what_the_handler_set: tr.Metadata == lastresult(asTrailerProto) && lastarg(asTrailerProto, 0) == lastresult("metadata.Join") && lastarg("metadata.Join", 0) == str.tr
 //@   ensures[C11] request_body_drained_and_closed: calls(drainAndClose) == 1
 //@   modifies everything
